@@ -175,4 +175,7 @@ def run(tier):
     from harness import c09
     c09.kernel_after_reload_part(ck, tier)
     c03.dtype_part(ck, tier)        # whole-number inputs given as integer arrays: same kernel, same trajectory
+    # the proposal map of the Hamiltonian sampler at temperatures other than one: trajectory end points of Leapfrog.tla (HmcStep.tla is T = 1)
+    from harness import c07
+    c07.orbit_part(ck, tier, reversibility=False)
     return ck.finish()
